@@ -80,6 +80,12 @@ def run_c06(tier):
         mcases.append({'n': 254, 'ind': [255 - j for j in range(1, k + 1)]})
         mcases.append({'n': 254, 'ind': [(j + 1) // 2 if j % 2 == 1 else 255 - j // 2 for j in range(1, k + 1)]})
         mcases.append({'n': 254, 'ind': [((j * 37 + 11) % 254) + 1 for j in range(1, k + 1)]})
+    # eight indices at one end of 1..254 filling one batch of the coefficient computation, one index at the other end in another batch,
+    # in both orders; the two complete orders of all 254 (differences of the largest magnitude: 253, eight per 64-bit limb)
+    hi, lo = list(range(246, 254)), list(range(1, 9))
+    for ind in ([hi + [1], [1] + hi, lo + [254], [254] + lo, hi + [1, 2], [2, 1] + hi, [3] + hi + [1], hi[::-1] + [1], list(range(247, 255)) + [1],
+                 [1, 2, 3, 4] + hi + [5, 6, 7], list(range(1, 255)), list(range(254, 0, -1))]):
+        mcases.append({'n': 254, 'ind': ind})
     neg = 0
     for mut, inv in [('nosign', 'Interpolates'), ('batch9', 'LimbFits')]:
         r = vlib.tlc(SPEC, 'ThresholdMath', vlib.cfg({'Q': 257, 'MaxN': 3, 'Sizes': {9, 17}, 'Mutation': mut}, invariants=[inv]), name='tmneg')
